@@ -984,3 +984,35 @@ Proof.
   - cbn. rewrite Hi, (truthy_zero z Hz). reflexivity.
   - rewrite ctrl_read_is_idle. exact Hi.
 Qed.
+
+(* ---------------------------------------------------------------- the reader task fails *)
+(* a command line that cannot be decoded / the peer closing its control connection makes parse_command raise:
+   the session ends at that very instant (cause CError), with no timeout involved -- unless a deadline ended it
+   before, at exactly that deadline; either way it is gone by t and nothing is left to hold *)
+Theorem abort_ends_session : forall c s t, alive s ->
+  (forall d k, end_dl std_wiring c s = Some (d, k) -> t < d) ->
+  ended (abort_at std_wiring c s t) = Some (t, CError).
+Proof.
+  intros c s t Ha Hd. unfold abort_at.
+  destruct (never_before_bound std_wiring c s (Tick t) eq_refl Ha Hd) as [A _].
+  unfold alive in A. rewrite A. reflexivity.
+Qed.
+
+Theorem abort_after_deadline : forall c s t d k, alive s ->
+  end_dl std_wiring c s = Some (d, k) -> d <= t ->
+  ended (abort_at std_wiring c s t) = Some (d, k).
+Proof.
+  intros c s t d k Ha Hd Hle. unfold abort_at.
+  rewrite (dropped_at_deadline std_wiring c s (Tick t) d k eq_refl Ha Hd Hle).
+  apply (dropped_at_deadline std_wiring c s (Tick t) d k eq_refl Ha Hd Hle).
+Qed.
+
+Theorem abort_released_by : forall c s t, alive s ->
+  exists d k, ended (abort_at std_wiring c s t) = Some (d, k) /\ d <= t.
+Proof.
+  intros c s t Ha. unfold abort_at.
+  destruct (ended (step std_wiring c s (Tick t))) as [[d k]|] eqn:E.
+  - exists d, k. split; [exact E|].
+    exact (proj2 (step_end_cause std_wiring c s (Tick t) d k eq_refl Ha E)).
+  - exists t, CError. split; [reflexivity|]. lra.
+Qed.
